@@ -116,6 +116,14 @@ CHECKS = {
         design_ref="DESIGN.md §4 C15",
         note="Schedules are complete only per listed program tuple at operation granularity; sub-operation gates are sampled (bound 2); a fresh instance of the config class per schedule.",
     ),
+    "C16": dict(
+        technique="reference-model monitor for names: exhaustive spelling x quote style x name parts x syntactic position grid against a 12-line reference normaliser",
+        category="exploration",
+        text="Every spelling of a table, column and alias name (case pattern x quote style the dialect lexes x 1-3 parts) is placed at every syntactic position (FROM, target, column, "
+             "qualifier, alias, column list, written-then-read across two statements) and the printed tables and column pairs are compared with the reference normaliser's prediction.",
+        design_ref="DESIGN.md §4 C16",
+        note="Known findings are matched only when the observation equals the defect-adjusted reference exactly; which quote characters quote identifiers is asked of the dialect's own sqlfluff grammar.",
+    ),
     "C17": dict(
         technique="invariant monitor on WSGI request/response events over an exhaustively enumerated path space against a scratch tree with marker files",
         category="exploration",
